@@ -168,16 +168,27 @@ def hypFails (s : State) (op : Op) : List String :=
        f "core.hyp" (decide (RdIn s)) "redirect-target-holds-task"
    | _ => []) ++ f "c05.hyp" (decide (NoSaturation s op)) "no-saturation"
 
-def runOps (s : State) (rets : List (List TaskId)) : List (List String) → Out → List String → Option (M (State × Out) × List String)
-  | [], out, mons => some (.ok (s, out), mons)
+/-- `NoIdReuse` (hypothesis of the message-level theorems): the ids a `newTasks` op submits were never submitted
+before in this case and are pairwise distinct -/
+def reuseFails (seen : List TaskId) : Op → List TaskId × List String
+  | .newTasks nts =>
+    let ids := nts.map (·.id)
+    let dup := ids.any (fun i => seen.contains i) || !ids.eraseDups.length == ids.length
+    (seen ++ ids, if dup then ["mon FAIL core.hyp task-id-submitted-twice a side condition of the history theorems is false on this operation of a real trace"] else [])
+  | _ => (seen, [])
+
+def runOps (s : State) (seen : List TaskId) (rets : List (List TaskId)) : List (List String) → Out → List String →
+    Option (M (State × Out) × List TaskId × List String)
+  | [], out, mons => some (.ok (s, out), seen, mons)
   | toks :: rest, out, mons =>
     match subOp s rets toks with
     | none => none
     | some (op, rets1) =>
-      let mons := mons ++ hypFails s op
+      let (seen1, m2) := reuseFails seen op
+      let mons := mons ++ hypFails s op ++ m2
       match Core.step s op with
-      | .error e => some (.error e, mons)
-      | .ok (s1, o) => runOps s1 rets1 rest (out.add o) mons
+      | .error e => some (.error e, seen1, mons)
+      | .ok (s1, o) => runOps s1 seen1 rets1 rest (out.add o) mons
 
 /-! printing (must match harness/src/coreview.rs) -/
 
@@ -241,28 +252,34 @@ def snapshot (s : State) : List String :=
   let rd := sortBy (fun (a b : TaskId × Nat × Nat) => tidLt a.1 b.1) s.redirects
   tl ++ wl ++ ql ++ [s!"out rd {showList (fun (r : TaskId × Nat × Nat) => s!"{showTid r.1}>{r.2.1}.{r.2.2}") rd}"]
 
-def step (s : State) (toks : List String) : State × List String :=
+structure DState where
+  s : State := {}
+  /-- every task id submitted so far in this case -/
+  seen : List TaskId := []
+
+def step (d : DState) (toks : List String) : DState × List String :=
   match toks with
   | "multi" :: rets :: rest =>
     match dropPrefix "rets=" rets >>= parseRets with
-    | none => (s, ["out !bad-op"])
+    | none => (d, ["out !bad-op"])
     | some rets =>
-      match runOps s rets (splitOps rest) {} [] with
-      | none => (s, ["out !bad-op"])
-      | some (.error (.panic site), mons) =>
-        (s, [if site.startsWith "!bad-choice" then s!"out {site}" else "out !panic core"] ++ mons)
-      | some (.ok (s', out), mons) =>
-        (s', showMsgs out.msgs ++ out.cbs.map showCb ++ [s!"out flag {if s'.needSched then 1 else 0}"] ++ snapshot s' ++ mons)
-  | _ => (s, ["out !bad-op"])
+      match runOps d.s d.seen rets (splitOps rest) {} [] with
+      | none => (d, ["out !bad-op"])
+      | some (.error (.panic site), _, mons) =>
+        (d, [if site.startsWith "!bad-choice" then s!"out {site}" else "out !panic core"] ++ mons)
+      | some (.ok (s', out), seen, mons) =>
+        ({ s := s', seen := seen },
+         showMsgs out.msgs ++ out.cbs.map showCb ++ [s!"out flag {if s'.needSched then 1 else 0}"] ++ snapshot s' ++ mons)
+  | _ => (d, ["out !bad-op"])
 
-def reset (toks : List String) : State :=
+def reset (toks : List String) : DState :=
   let get (key : String) (d : Nat) : Nat :=
     match toks.findSome? (fun t => dropPrefix (key ++ "=") t) with
     | some v => v.toNat?.getD d
     | none => d
-  { prefillReserve := get "reserve" 1, prefillMax := get "max" 1 }
+  { s := { prefillReserve := get "reserve" 1, prefillMax := get "max" 1 } }
 
-def driver : Driver State := { reset := reset, step := step }
+def driver : Driver DState := { reset := reset, step := step }
 
 end CoreDriver
 
